@@ -194,6 +194,7 @@ func famTree(o *Out, r R, tier string) {
 	if tier == "thorough" {
 		nlists, maxPerm = 3000, 4
 	}
+	var emitWith func(kind string, pats, probes []string)
 	emit := func(kind string, pats []string) {
 		var probes []string
 		seen := map[string]bool{}
@@ -205,6 +206,9 @@ func famTree(o *Out, r R, tier string) {
 				}
 			}
 		}
+		emitWith(kind, pats, probes)
+	}
+	emitWith = func(kind string, pats, probes []string) {
 		res, elems, npat := runTree(pats, probes)
 		via := runTreeViaMiddleware(pats, probes)
 		if via == nil {
@@ -230,6 +234,29 @@ func famTree(o *Out, r R, tier string) {
 	for _, c := range corpus {
 		for _, p := range permutations(c) {
 			emit("corpus", p)
+		}
+	}
+	// many siblings below one node (boundary counts), in sorted, reverse and random insertion order
+	nsib := 3
+	if tier == "thorough" {
+		nsib = 20
+	}
+	for _, cnt := range []int{2, 7, 8, 9, 15, 16, 17, 18, 24, 32, 33, 36} {
+		for k := 0; k < nsib; k++ {
+			hosts := genSiblings(r, cnt)
+			sch := r.pick([]string{"https", "https", "http", "httpx"})
+			port := r.pick([]string{"", "", ":8443", ":*"})
+			pats := make([]string, len(hosts))
+			var probes []string
+			for i, h := range hosts {
+				pats[i] = sch + "://" + h + port
+				if r.chance(1, 12) {
+					pats[i] = sch + "://*." + h + port
+				}
+				probes = append(probes, sch+"://"+h+port0(port), sch+"://a."+h+port0(port), sch+"://"+h, "https://"+h[1:]+port0(port))
+			}
+			probes = append(probes, sch+"://~"+hosts[0][1:]+port0(port), sch+"://-"+hosts[0][1:]+port0(port), sch+"://zz"+hosts[0][1:]+port0(port))
+			emitWith("siblings/n="+strconv.Itoa(cnt), pats, probes)
 		}
 	}
 	if tier == "thorough" { // every permutation of some 5-element lists
